@@ -54,6 +54,30 @@ rekey_ok_contract!(rekey__ok__classic, false);
 // @obl props=C04,C05,C06,C09,C11 tier=quick class=bounded fn=core::primitives::rekey shape="2 rights x 1 revision, re-keyed right hybridized"
 rekey_ok_contract!(rekey__ok__hybridized, true);
 
+// @obl props=C04,C06,C11 tier=quick class=bounded fn=core::primitives::rekey shape="1 right with 2 revisions whose flags and flavours differ (front deactivated classic, older activated hybridized)"
+kproof! {
+    #[kani::unwind(8)]
+    fn rekey__inherits_from_the_newest_revision() {
+        let mut rng = SymRng;
+        let r1 = right(&[1]);
+        let (x_old, x_front, d): (u8, u8, u8) = (any_fe(), any_fe(), kani::any());
+        let mut msk = mk_msk(mk_tsk0(1), false);
+        msk.secrets.insert(r1.clone(), (true, hybrid(x_old, d)));
+        msk.secrets.insert(r1.clone(), (false, classic(x_front)));
+        let mut set = HashSet::new();
+        set.insert(r1.clone());
+        let ok = ok_or_forget(rekey(&mut rng, &mut msk, set)).is_some();
+        assert!(ok, "C09: rekey of a right held by the master key succeeds");
+        let c = mchain(&msk, &r1);
+        assert!(c[0].is_some() && c[3].is_none(), "C04: chain' = [fresh] ++ chain");
+        let (a, k) = c[0].clone().unwrap();
+        assert!(!a, "C06: the fresh secret inherits the activation flag of the NEWEST secret (a deactivated right stays deactivated even if an older secret is activated)");
+        assert!(!k.is_hybridized(), "C11: the fresh secret inherits the flavour of the newest secret");
+        assert!(c[1] == Some((false, classic(x_front))) && c[2] == Some((true, hybrid(x_old, d))), "C04: older revisions are kept in order");
+        std::mem::forget(msk);
+    }
+}
+
 macro_rules! rekey_err_contract {
     ($name:ident, $unknown_first:expr) => {
         kproof! {
